@@ -37,6 +37,11 @@ CONSTANTS
   AllowCompact = TRUE
   ProposeAnywhere = FALSE
   TargetPreds = {}
+  DropTypes = {}
+  DropTo = {}
+  DupTypes = {}
+  CompactNodes = {}
+  MaxDups = 1
 CONSTRAINT Bound
 INVARIANT Judge
 INVARIANT Replay
